@@ -18,7 +18,18 @@ package udp
 
 //@ func (c *Conn) SetReadDeadline(t time.Time) (err error)
 //@   requires c.buffer != nil && c.buffer.readDeadline != nil
-//@   modifies lastUntil
+//@   modifies lastUntil, dlSetN, dlSetObj, dlSetTo
+//@   ensures [forward] (exists k mathint :: old(dlSetN) <= k && k < dlSetN && dlSetObj[k] == ref(c.buffer.readDeadline) && dlSetTo[k] == t) &&
+//@            (forall k mathint :: {dlSetTo[k]} old(dlSetN) <= k && k < dlSetN ==> dlSetTo[k] == t)
+//@   ensures [keep] dlSetN > old(dlSetN) && (forall k mathint :: {dlSetTo[k]} k < old(dlSetN) ==> dlSetTo[k] == old(dlSetTo[k]) && dlSetObj[k] == old(dlSetObj[k]))
+//@   ensures [nil] err == nil
+// SetDeadline sets both deadlines: the read deadline receives exactly the given time, whatever the write deadline held
+//@ func (c *Conn) SetDeadline(t time.Time) (err error)
+//@   requires c.buffer != nil && c.buffer.readDeadline != nil && c.writeDeadline != nil
+//@   modifies lastUntil, dlSetN, dlSetObj, dlSetTo
+//@   ensures [forward] (exists k mathint :: old(dlSetN) <= k && k < dlSetN && dlSetObj[k] == ref(c.buffer.readDeadline) && dlSetTo[k] == t) &&
+//@            (forall k mathint :: {dlSetTo[k]} old(dlSetN) <= k && k < dlSetN ==> dlSetTo[k] == t)
+//@   ensures [keep] dlSetN > old(dlSetN) && (forall k mathint :: {dlSetTo[k]} k < old(dlSetN) ==> dlSetTo[k] == old(dlSetTo[k]) && dlSetObj[k] == old(dlSetObj[k]))
 //@   ensures [nil] err == nil
 
 // ---- listener demultiplexing (C11).  The table of connections is a monitor: every entry is registered under the textual
@@ -116,5 +127,5 @@ package udp
 //@ field BatchConn closed atomic
 //@ lockset C19: listener, Conn, BatchConn
 
-//@ property C10: listener.newConn, Conn.Read, Conn.SetReadDeadline
+//@ property C10: listener.newConn, Conn.Read, Conn.SetReadDeadline, Conn.SetDeadline
 //@ property C11: listener.newConn, listener.getConn, listener.dispatchMsg, listener.Accept, Conn.Close
